@@ -89,7 +89,7 @@ def check_valid(hyps, goal, rlimit=None, want_model=False, use_cvc5=True, timeou
     return check_smt2(to_smt2(hyps, goal, get_model=want_model), timeout=timeout, want_model=want_model, use_cvc5=use_cvc5)
 
 
-def satisfiable(formulas, timeout=10):
+def satisfiable(formulas, timeout=3):
     """Vacuity probe: sat / unsat / unknown."""
     s = z3.Solver()
     for f in formulas:
